@@ -165,7 +165,13 @@ def run_law(case) -> Result:
 
 def run_case(case) -> Result:
     if case.get("kind") == "law":
-        return run_law(case)
+        try:
+            return run_law(case)
+        except (vber.BerError, AssertionError):
+            raise
+        except Exception as e:  # noqa -- decoding / re-encoding a well-formed structure must not raise
+            return Result("law %s: decoding or re-encoding a well-formed %s raised %s: %s" % (
+                case["what"], case["what"], type(e).__name__, e), True, ["kind=law", "law=" + case["what"]])
     proto = case["proto"]
     op = case["op"]
     vbs = [(tuple(o), t, bytes.fromhex(h)) for o, t, h in case["vbs"]]
